@@ -50,6 +50,7 @@ type Thread struct {
 	Name    string
 	Local   any    // harness-owned per-thread slot
 	live    *int32 // goroutines of this thread's execution that have not finished unwinding
+	pk      parker
 }
 
 func (t *Thread) ID() int { return t.id }
@@ -155,7 +156,14 @@ func Advance(ns int64) {
 func loadTurn() int32 { return turn }
 
 //go:norace
-func setTurn(t int32) { turn = t }
+func setTurn(t int32) {
+	turn = t
+	if t >= 0 && int(t) < len(threads) {
+		threads[t].pk.unpark()
+	} else if t == turnCtl {
+		ctlParker.unpark()
+	}
+}
 
 //go:norace
 func isStale(t *Thread) bool { return t.gen != gen }
@@ -174,7 +182,7 @@ func waitTurn(t *Thread) {
 			}
 			return
 		}
-		runtime.Gosched()
+		t.pk.park()
 	}
 }
 
@@ -372,8 +380,8 @@ func decide() int32 {
 				}
 			}
 			p := Point{N: len(alt), Chosen: c, Cost: cost, Alt: alt, NoPreemt: npre}
-			if cfg.StateKey != nil {
-				p.Key = stateKey()
+			if cfg.StateKey != nil && i >= len(prefix)-1 {
+				p.Key = stateKey() // not needed inside the replayed prefix: the explorer only branches after it
 			}
 			exec.Points = append(exec.Points, p)
 		}
@@ -402,7 +410,7 @@ func stateKey() string {
 	var b strings.Builder
 	b.WriteString(cfg.StateKey())
 	for _, t := range threads {
-		fmt.Fprintf(&b, "|%d:%d:%v", t.id, t.steps, t.done)
+		fmt.Fprintf(&b, "|%d:%d:%v:%v", t.id, t.steps, t.done, t.done || t.obj == nil || t.obj.VrtReady(t.kind))
 	}
 	for _, e := range events {
 		if e.armed {
@@ -478,7 +486,7 @@ func (e *Event) Armed() bool { return e.armed }
 
 //go:norace
 func spawn(fn func(), daemon bool, name string) *Thread {
-	t := &Thread{id: len(threads), gen: gen, kind: KStart, label: "start", daemon: daemon, Name: name}
+	t := &Thread{id: len(threads), gen: gen, kind: KStart, label: "start", daemon: daemon, Name: name, pk: newParker()}
 	if cfg != nil && cfg.NoPreempt != nil {
 		t.npre = true
 	}
@@ -624,13 +632,16 @@ func RunOnce(c *Config, pfx []int, body func()) *Exec {
 	setTurn(next)
 	_ = t0
 	for loadTurn() != turnCtl {
-		runtime.Gosched()
+		ctlParker.park()
 	}
 	active = false
 	cur = nil
 	x := exec
 	gen++ // everything still parked is now stale and unwinds
 	setTurn(turnNone)
+	for _, t := range threads {
+		t.pk.unpark()
+	}
 	// Stale goroutines must have unwound completely (deferred unlocks included) before the next execution
 	// starts: a stale goroutine that reaches a shim operation while another execution is active would be taken
 	// for that execution's running thread. The bound is a liveness fallback only (a goroutine blocked for good
@@ -798,3 +809,15 @@ func ClockVirtual() bool { return active || ForceVirtualClock }
 // ForceVirtualClock makes vtime.Now answer the virtual clock (Epoch + Advance) in sequential harnesses too, so
 // that bytes derived from timestamps (file headers) are identical in every run.
 var ForceVirtualClock bool
+
+// PendingKinds calls f for every unfinished thread of the running execution with its name and the kind of its
+// pending operation (observation hooks only).
+//
+//go:norace
+func PendingKinds(f func(name string, kind int, daemon bool)) {
+	for _, t := range threads {
+		if !t.done {
+			f(t.Name, t.kind, t.daemon)
+		}
+	}
+}
